@@ -287,7 +287,11 @@ private:
         const bool tupleParam = e.idx.size() == np;
         if (!tupleParam && e.kids.size() > 2) return TR::Rej("invalid-filter-arity");
         TR arg = term(*e.kids.back(), &e); if (!arg.ok()) return arg;
-        if (arg.t.isAny() || (arg.t.isSet() && arg.t.elem().isAny())) return TR::Ok(Ty::Set(Ty::Base("R0")));
+        if (arg.t.isAny() || (arg.t.isSet() && arg.t.elem().isAny())) {
+          // filtering the empty set: nothing to compare the parameters with, but they are subterms and must be typed themselves
+          for (size_t i = 0; i < np; ++i) { TR p = term(*e.kids[i], &e); if (!p.ok()) return p; }
+          return TR::Ok(Ty::Set(Ty::Base("R0")));
+        }
         if (!arg.t.isSet() || !arg.t.elem().isTuple()) return TR::Rej("invalid-filter-argument-type");
         std::vector<Ty> bases;
         for (int i : e.idx) { if (i < 1 || static_cast<size_t>(i) > arg.t.elem().comps.size()) return TR::Rej("invalid-filter-argument-type"); bases.push_back(arg.t.elem().comps[static_cast<size_t>(i - 1)]); }
